@@ -480,6 +480,12 @@ def durativize(rng, rec, lang="pddl", p=0.7, ice=0.0, form=None, cond_form=None)
             if forced and cond_form and ci == 0:
                 if cond_form in ("start", "end"):
                     conds.append([["point", [cond_form]], c])
+                elif cond_form == "ice-open" and ice:
+                    conds.append([["open", ["start", "1/2"], ["end"]], c])
+                elif cond_form == "ice-point" and ice:
+                    conds.append([["point", ["end", "-1/4"]], c])
+                elif cond_form.startswith("ice"):
+                    conds.append([["open", ["start"], ["end"]], c])
                 else:
                     conds.append([[cond_form, ["start"], ["end"]], c])
                 continue
@@ -589,7 +595,7 @@ PDDL_BASE = dict(
 
 PDDL_VARIANT_CYCLE = ["classic", "ai-friendly", "temporal", "ai-friendly", "classic"]
 DURATION_FORMS = ["fixed", "closed", "open", "lopen", "ropen", "fixed"]
-COND_FORMS = ["open", "closed", "lopen", "ropen", "start", "open", "end"]
+COND_FORMS = ["open", "closed", "lopen", "ropen", "start", "ice-open", "end", "ice-point"]
 
 
 def gen_pddl_case(rng, idx=None):
